@@ -52,10 +52,13 @@ static const double TC[2][3] = {{1.45, 1.05, 0.55}, {0.77, 1.86, 0.33}};       /
 static const double MEANS[2] = {0.35, -0.6};
 static const double SHIFT[3] = {100.5, -37.25, 12.75};
 
+static bool G_TGRID = false;   // point targets = nodes of a rotated DbGrid (set per case)
 struct Setup
 {
   Db* dbin = nullptr; Db* dbout = nullptr; Model* model = nullptr; ANeigh* neigh = nullptr;
   int nvar, ns, nfar, ndim; bool verr; std::string drift, target, neighKind; int imodel;
+  bool tgrid = G_TGRID;    // point kriging at the nodes of a ROTATED DbGrid instead of a point Db (2-D / 3-D)
+  bool cluster = false;    // a second, fully defined cluster of data far away, with its own target (moving neighbourhood)
   std::vector<int> order;           // sample s (0-based, spec numbering) -> rank in dbin
   double shift[3] = {0, 0, 0};
   ~Setup() { delete dbin; delete dbout; delete model; delete neigh; }
@@ -155,6 +158,28 @@ static void build(Setup& S, const Value& cfg, const std::vector<int>& perm, cons
     dx.resize(nd);
     for (int d = 0; d < nd; d++) x0[d] = TC[0][d] + S.shift[d];
     DbGrid* g = DbGrid::create(nx, dx, x0);
+    if (S.drift == "EXT")
+    {
+      VectorDouble fo(2);
+      for (int i = 0; i < 2; i++)
+      {
+        double c[3] = {0, 0, 0};
+        for (int d = 0; d < nd; d++) c[d] = g->getCoordinate(i, d) - S.shift[d];
+        fo[i] = extdrift(c, nd);
+      }
+      g->addColumns(fo, "ext", ELoc::F);
+    }
+    S.dbout = g;
+  }
+  else if (S.tgrid && nd >= 2)
+  {
+    // rotated grid: node 0 at the first point target, node 1 one mesh further along the rotated first axis
+    VectorInt nx(nd, 1); nx[0] = 2;
+    VectorDouble dx = {0.83, 0.61, 0.47}, x0(nd), angles(nd, 0.);
+    dx.resize(nd);
+    angles[0] = 30.; if (nd == 3) angles[1] = 20.;
+    for (int d = 0; d < nd; d++) x0[d] = TC[0][d] + S.shift[d];
+    DbGrid* g = DbGrid::create(nx, dx, x0, angles);
     if (S.drift == "EXT")
     {
       VectorDouble fo(2);
@@ -268,10 +293,11 @@ struct Eval
 
 static double maxabs(const Mat& m) { double s = 0; for (auto& r : m) for (double x : r) s = std::max(s, std::fabs(x)); return s; }
 
-static Value analyse(const Value& cs, const std::string& neighKind, int imodel, int itarget, const std::vector<int>& perm)
+static Value analyse(const Value& cs, const std::string& neighKind, int imodel, int itarget, const std::vector<int>& perm, bool tgrid)
 {
   const Value& cfg = cs.at("cfg");
   const Value& sys = cs.at("sys");
+  G_TGRID = tgrid;
   Setup S; S.neighKind = neighKind; S.imodel = imodel;
   build(S, cfg, perm);
   Eval E(S, itarget, cfg.at("funcs"));
@@ -370,7 +396,7 @@ static Value analyse(const Value& cs, const std::string& neighKind, int imodel, 
 }
 
 // ------------------------------------------------------------------ C02: metamorphic relations
-struct KR { std::vector<double> est, sd; int err; std::vector<double> sumw; };
+struct KR { std::vector<double> est, sd; int err; std::vector<double> sumw; std::vector<std::vector<double>> tc; std::vector<double> tf; };
 static KR runKrig(const Value& cfg, const std::string& neighKind, int imodel, const std::vector<int>& perm, bool shifted,
                   const std::vector<std::vector<double>>* zover, bool wantWeights = false, int itarget = 0)
 {
@@ -380,6 +406,13 @@ static KR runKrig(const Value& cfg, const std::string& neighKind, int imodel, co
   EKrigOpt calcul = S.target == "block" ? EKrigOpt::BLOCK : EKrigOpt::POINT;
   VectorInt ndiscs; if (S.target == "block") ndiscs = VectorInt(S.ndim, 2);
   KR r;
+  for (int t = 0; t < 2; t++)
+  {
+    std::vector<double> c(3, 0.);
+    for (int d = 0; d < S.ndim; d++) c[d] = S.dbout->getCoordinate(t, d) - S.shift[d];
+    r.tc.push_back(c);
+    r.tf.push_back(S.drift == "EXT" ? S.dbout->getLocVariable(ELoc::F, t, 0) : 0.);
+  }
   r.err = kriging(S.dbin, S.dbout, S.model, S.neigh, calcul, true, true, false, ndiscs);
   if (r.err == 0)
     for (int v = 0; v < S.nvar; v++)
@@ -485,7 +518,7 @@ static Value meta(const Value& cs, const std::string& neighKind, int imodel)
     KR kd = runKrig(cfg, neighKind, imodel, id, false, &d);
     std::vector<double> want;
     for (int v = 0; v < nvar; v++) for (int tt = 0; tt < 2; tt++)
-      want.push_back(base.est[v * 2 + tt] + comb(v, TC[tt], extdrift(TC[tt], ndim)));
+      want.push_back(base.est[v * 2 + tt] + comb(v, base.tc[tt].data(), base.tf[tt]));
     o["drift_est"] = Value(maxdiff(kd.est, want)); o["drift_sd"] = Value(maxdiff(base.sd, kd.sd, 1e-3));
     // the weights sum to one for the own variable and to zero for the others
     double sw = 0; for (double x : base.sumw) sw = std::max(sw, std::fabs(x));
@@ -538,6 +571,68 @@ static Value exact(const Value& cs, const std::string& neighKind, int imodel)
   return o;
 }
 
+// Two clusters of data far from each other and a moving neighbourhood: consecutive targets of ONE kriging run get
+// different neighbourhoods (the first cluster follows the configuration, possibly heterotopic; the second one is
+// fully defined).  The results at the target of the second cluster must equal those of a run holding that cluster only.
+static Value clusterCase(const Value& cs, int imodel)
+{
+  const Value& cfg = cs.at("cfg");
+  Value o = Value::object();
+  int nvar = cfg.at("nvar").i(), ns = cfg.at("ns").i(), nd = cfg.at("ndim").i();
+  std::string drift = cfg.at("drift").s();
+  std::vector<int> id(ns); for (int i = 0; i < ns; i++) id[i] = i;
+  G_TGRID = false;
+  Setup S; S.neighKind = "unique"; S.imodel = imodel;      // (no far samples; the neighbourhood is replaced below)
+  build(S, cfg, id);
+  const int NB = 4;
+  static const double BX[NB][3] = {{30.4, 0.6, 0.2}, {31.9, 1.8, 0.7}, {30.9, 2.6, 0.4}, {32.3, 0.9, 0.9}};
+  static const double BZ[2][NB] = {{0.8, -1.1, 1.9, 0.3}, {1.4, 0.2, -0.5, 2.2}};
+  static const double BT[3] = {31.3, 1.5, 0.5};
+  // cluster B appended to the data
+  int n0 = S.dbin->getSampleNumber();
+  S.dbin->addSamples(NB, TEST);
+  for (int k = 0; k < NB; k++)
+  {
+    for (int d = 0; d < nd; d++) S.dbin->setCoordinate(n0 + k, d, BX[k][d]);
+    for (int v = 0; v < nvar; v++) S.dbin->setLocVariable(ELoc::Z, n0 + k, v, BZ[v][k]);
+    if (S.verr) for (int v = 0; v < nvar; v++) S.dbin->setLocVariable(ELoc::V, n0 + k, v, 0.1 + 0.05 * k + 0.02 * v);
+    if (drift == "EXT") S.dbin->setLocVariable(ELoc::F, n0 + k, 0, 0.4 + 0.3 * k);
+  }
+  // targets: the two of cluster A (point Db), then one in cluster B, then cluster A again
+  VectorDouble t; VectorString tn, tl;
+  std::vector<std::vector<double>> T = {{TC[0][0], TC[0][1], TC[0][2]}, {BT[0], BT[1], BT[2]}, {TC[1][0], TC[1][1], TC[1][2]}, {BT[0] + 0.2, BT[1] - 0.3, BT[2]}};
+  for (int d = 0; d < nd; d++) { for (auto& p : T) t.push_back(p[d]); tn.push_back("x" + std::to_string(d + 1)); tl.push_back("x" + std::to_string(d + 1)); }
+  if (drift == "EXT") { for (size_t i = 0; i < T.size(); i++) t.push_back(0.9 + 0.2 * i); tn.push_back("ext"); tl.push_back("f1"); }
+  Db* out = Db::createFromSamples((int)T.size(), ELoadBy::COLUMN, t, tn, tl, false);
+  SpaceRN space(nd);
+  NeighMoving* nb = NeighMoving::create(false, 100, 8., 1, 1, 0, VectorDouble(), VectorDouble(), &space);
+  int err = kriging(S.dbin, out, S.model, nb, EKrigOpt::POINT, true, true, false);
+  // reference: cluster B alone, same targets 1 and 3
+  Db* onlyB = S.dbin->clone();
+  VectorInt del; for (int i = 0; i < n0; i++) del.push_back(i);
+  onlyB->deleteSamples(del);
+  Db* outB = out->clone();
+  outB->deleteColumn("Kriging*");
+  NeighMoving* nb2 = NeighMoving::create(false, 100, 8., 1, 1, 0, VectorDouble(), VectorDouble(), &space);
+  int errB = kriging(onlyB, outB, S.model, nb2, EKrigOpt::POINT, true, true, false);
+  o["err"] = Value(err); o["errB"] = Value(errB);
+  double de = 0, ds = 0; bool fin = true;
+  if (err == 0 && errB == 0)
+    for (int v = 0; v < nvar; v++)
+      for (int it : {1, 3})
+      {
+        std::string sv = std::to_string(v + 1);
+        double e1 = out->getValue("Kriging.z" + sv + ".estim", it), e2 = outB->getValue("Kriging.z" + sv + ".estim", it);
+        double s1 = out->getValue("Kriging.z" + sv + ".stdev", it), s2 = outB->getValue("Kriging.z" + sv + ".stdev", it);
+        if (!std::isfinite(e1) || !std::isfinite(s1) || FFFF(e1) || FFFF(s1)) fin = false;
+        de = std::max(de, std::fabs(e1 - e2) / std::max(1., std::fabs(e2)));
+        ds = std::max(ds, std::fabs(s1 * s1 - s2 * s2));
+      }
+  o["finite"] = Value(fin); o["cluster_est"] = Value(de); o["cluster_var"] = Value(ds);
+  delete out; delete outB; delete onlyB; delete nb; delete nb2;
+  return o;
+}
+
 int main(int argc, char** argv)
 {
   if (argc < 3) return 2;
@@ -568,9 +663,10 @@ int main(int argc, char** argv)
     {
       std::vector<int> perm(ns);
       for (int i = 0; i < ns; i++) perm[i] = run.at("perm").i() == 0 ? i : ns - 1 - i;
-      rec["obs"] = analyse(cs, nk, im, run.at("target").i(), perm);
+      rec["obs"] = analyse(cs, nk, im, run.at("target").i(), perm, run.getb("tgrid", false));
     }
-    else if (mode == "meta") rec["obs"] = meta(cs, nk, im);
+    else if (mode == "meta") { G_TGRID = run.getb("tgrid", false); rec["obs"] = meta(cs, nk, im); G_TGRID = false; }
+    else if (mode == "cluster") rec["obs"] = clusterCase(cs, im);
     else if (mode == "exact") rec["obs"] = exact(cs, nk, im);
     fprintf(fo, "%s\n", vj::dump(rec).c_str());
   }
